@@ -32,12 +32,12 @@ theorem binopV_spec {s s' : St} {op : BinOp} {a b r : Val} (hinv : Inv s) (hP : 
 
 /-! ## guards -/
 /-- `add_guard(cond)` outside any guarded region -/
-theorem addGuard_spec {s s' : St} {cond : Val} {bak : GuardBak} (hinv : Inv s) (hg : s.guard = none)
-    (hc : GoodV s cond) (h : addGuard cond s = .ok (bak, s')) :
+theorem addGuardCore_spec {s s' : St} {cond : Val} {bak : GuardBak} (hinv : Inv s) (hg : s.guard = none)
+    (hc : GoodV s cond) (h : addGuardCore cond s = .ok (bak, s')) :
     s.le s' ∧ Inv s' ∧ bak = ⟨none, false, oneSafe⟩ := by
   have hi := hinv.ign_false_of_none hg
   have ho := hinv.oneNone hg
-  unfold addGuard at h
+  unfold addGuardCore at h
   dsimp only at h
   split at h
   · rename_i c
@@ -81,6 +81,15 @@ theorem addGuard_spec {s s' : St} {cond : Val} {bak : GuardBak} (hinv : Inv s) (
   · cases h
 
 /-- `restore_guard` of the frame saved outside any guarded region -/
+
+theorem GoodV_unwrapBoolCond {s : St} {v : Val} (h : GoodV s v) : GoodV s (unwrapBoolCond v) := by
+  cases v <;> simpa [unwrapBoolCond, GoodV] using h
+
+theorem addGuard_spec {s s' : St} {cond : Val} {bak : GuardBak} (hinv : Inv s) (hg : s.guard = none)
+    (hc : GoodV s cond) (h : addGuard cond s = .ok (bak, s')) :
+    s.le s' ∧ Inv s' ∧ bak = ⟨none, false, oneSafe⟩ :=
+  addGuardCore_spec hinv hg (GoodV_unwrapBoolCond hc) h
+
 theorem restoreGuard_spec {s s' : St} {u : Unit} (hinv : Inv s)
     (h : restoreGuard ⟨none, false, oneSafe⟩ s = .ok (u, s')) :
     s.le s' ∧ Inv s' ∧ s'.guard = none := by
